@@ -2097,3 +2097,480 @@ Section Chains.
       intros Hv. apply I2. unfold topo_down. apply -> in_rev. apply Hall. auto.
   Qed.
 End Chains.
+
+(* ================= 11. chain encoding: positions and reach maps ================= *)
+(* x sits on chain cid at position pos *)
+Definition at_pos (chains : list (list nat)) (x cid pos : nat) : Prop :=
+  pos < length (nth cid chains []) /\ nth pos (nth cid chains []) 0 = x.
+
+Definition cinner (cid : nat) (s2 : list (nat * nat) * nat) (v : nat) : list (nat * nat) * nat :=
+  (upd (fst s2) v (cid, snd s2), S (snd s2)).
+Definition couter (st : list (nat * nat) * nat) (chain : list nat) : list (nat * nat) * nat :=
+  let '(tbl, cid) := st in (fst (fold_left (cinner cid) chain (tbl, 0)), S cid).
+
+Lemma chain_of_table_eq : forall n chains,
+  chain_of_table n chains = fst (fold_left couter chains (repeat (0, 0) n, 0)).
+Proof. reflexivity. Qed.
+
+Lemma NoDup_app_elim : forall A (a b : list A), NoDup (a ++ b) ->
+  NoDup a /\ NoDup b /\ forall x, In x a -> ~ In x b.
+Proof.
+  induction a as [|x a IH]; intros b H; cbn in *.
+  - split; [constructor|]. split; auto.
+  - inversion H; subst. destruct (IH b H3) as [I1 [I2 I3]]. split; [|split; auto].
+    + constructor; auto. intros Hx. apply H2. apply in_or_app; auto.
+    + intros y [<-|Hy]; [intros Hb; apply H2; apply in_or_app; auto|auto].
+Qed.
+
+Lemma cinner_fold : forall cid chain t pos0, NoDup chain -> (forall v, In v chain -> v < length t) ->
+  length (fst (fold_left (cinner cid) chain (t, pos0))) = length t /\
+  (forall x, ~ In x chain -> nth x (fst (fold_left (cinner cid) chain (t, pos0))) (0, 0) = nth x t (0, 0)) /\
+  (forall i, i < length chain ->
+     nth (nth i chain 0) (fst (fold_left (cinner cid) chain (t, pos0))) (0, 0) = (cid, pos0 + i)).
+Proof.
+  intros cid. induction chain as [|v chain IH]; intros t pos0 Hnd Hlt; cbn [fold_left].
+  - split; auto. split; auto. intros i Hi. cbn in Hi. lia.
+  - inversion Hnd as [|? ? Hv Hch]; subst. unfold cinner at 2. cbn [fst snd].
+    destruct (IH (upd t v (cid, pos0)) (S pos0) Hch) as [I1 [I2 I3]].
+    { intros x Hx. rewrite upd_length. apply Hlt; cbn; auto. }
+    rewrite upd_length in I1. split; auto. split.
+    + intros x Hx. rewrite I2 by (intros H; apply Hx; cbn; auto).
+      apply nth_upd_other. intros ->. apply Hx; cbn; auto.
+    + intros [|i] Hi; cbn [nth].
+      * rewrite I2 by auto. rewrite nth_upd by (apply Hlt; cbn; auto). rewrite Nat.eqb_refl. f_equal. lia.
+      * rewrite I3 by (cbn in Hi; lia). f_equal. lia.
+Qed.
+
+Lemma couter_fold : forall chains t cid0, NoDup (concat chains) ->
+  (forall v, In v (concat chains) -> v < length t) ->
+  (forall x, ~ In x (concat chains) -> nth x (fst (fold_left couter chains (t, cid0))) (0, 0) = nth x t (0, 0)) /\
+  (forall x cid pos, at_pos chains x cid pos -> cid < length chains ->
+     nth x (fst (fold_left couter chains (t, cid0))) (0, 0) = (cid0 + cid, pos)).
+Proof.
+  induction chains as [|ch chains IH]; intros t cid0 Hnd Hlt; cbn [fold_left].
+  - split; auto. intros x cid pos _ H. cbn in H. lia.
+  - cbn [concat] in Hnd, Hlt.
+    destruct (NoDup_app_elim _ ch (concat chains) Hnd) as [Hch [Hrest Hdisj]].
+    change (couter (t, cid0) ch) with (fst (fold_left (cinner cid0) ch (t, 0)), S cid0).
+    destruct (cinner_fold cid0 ch t 0 Hch) as [C1 [C2 C3]]; [intros v Hv; apply Hlt, in_or_app; auto|].
+    destruct (IH (fst (fold_left (cinner cid0) ch (t, 0))) (S cid0) Hrest) as [I1 I2].
+    { intros v Hv. rewrite C1. apply Hlt, in_or_app; auto. }
+    split.
+    + intros x Hx. rewrite I1 by (intros H; apply Hx, in_or_app; auto).
+      apply C2. intros H; apply Hx, in_or_app; auto.
+    + intros x cid pos [Hp Hx] Hc. destruct cid as [|cid]; cbn [nth] in Hp, Hx.
+      * rewrite I1.
+        -- rewrite <- Hx. rewrite C3 by auto. f_equal; lia.
+        -- apply Hdisj. rewrite <- Hx. apply nth_In. auto.
+      * rewrite (I2 x cid pos); [f_equal; lia|split; auto|cbn in Hc; lia].
+Qed.
+
+(* sorted association lists with minimum merge *)
+Fixpoint sorted_keys (l : list (nat * nat)) : Prop :=
+  match l with
+  | (c, _) :: (((c', _) :: _) as r) => c < c' /\ sorted_keys r
+  | _ => True
+  end.
+
+Lemma sorted_tail : forall e l, sorted_keys (e :: l) -> sorted_keys l.
+Proof. intros [c m] [|[c' m'] l]; cbn; tauto. Qed.
+
+Lemma sorted_head_lt : forall c m l c0, sorted_keys ((c, m) :: l) -> assoc c0 l <> None -> c < c0.
+Proof.
+  intros c m l. revert c m. induction l as [|[c' m'] l IH]; intros c m c0 Hs Ha; cbn in *; [congruence|].
+  destruct Hs as [H1 H2]. destruct (Nat.eqb_spec c0 c'); [lia|].
+  pose proof (IH c' m' c0 H2 Ha). lia.
+Qed.
+
+Lemma amin_sorted : forall c m l, sorted_keys l -> sorted_keys (amin_insert c m l).
+Proof.
+  intros c m. induction l as [|[c' m'] l IH]; intros Hs; cbn [amin_insert]; [cbn; auto|].
+  destruct (Nat.ltb_spec c c'); [cbn; split; auto|].
+  destruct (Nat.eqb_spec c c') as [->|Hne].
+  - destruct l as [|[c2 m2] l]; cbn in *; auto.
+  - specialize (IH (sorted_tail _ _ Hs)).
+    destruct l as [|[c2 m2] l]; cbn [amin_insert] in *.
+    + cbn. split; auto. lia.
+    + destruct Hs as [H1 H2]. destruct (Nat.ltb_spec c c2); [cbn; split; [lia|split; auto]|].
+      destruct (Nat.eqb_spec c c2); cbn in *; split; auto; tauto.
+Qed.
+
+Lemma amin_assoc : forall c m l c0, sorted_keys l ->
+  assoc c0 (amin_insert c m l) =
+  if c0 =? c then Some (match assoc c l with Some m' => Nat.min m' m | None => m end) else assoc c0 l.
+Proof.
+  intros c m. induction l as [|[c' m'] l IH]; intros c0 Hs; cbn [amin_insert assoc].
+  - destruct (c0 =? c); reflexivity.
+  - destruct (Nat.ltb_spec c c') as [Hlt|Hge].
+    + cbn [assoc]. destruct (Nat.eqb_spec c0 c) as [->|Hne]; [|reflexivity].
+      destruct (Nat.eqb_spec c c'); [lia|].
+      destruct (assoc c l) eqn:E; [|reflexivity].
+      assert (c' < c) by (eapply sorted_head_lt; eauto; congruence). lia.
+    + destruct (Nat.eqb_spec c c') as [->|Hne].
+      * cbn [assoc]. destruct (Nat.eqb_spec c0 c'); reflexivity.
+      * cbn [assoc]. rewrite IH by (eapply sorted_tail; eauto).
+        destruct (Nat.eqb_spec c0 c') as [->|H0].
+        -- destruct (Nat.eqb_spec c' c); [lia|reflexivity].
+        -- reflexivity.
+Qed.
+
+(* [rcovers l S] : the sorted association list l holds, for every chain c, the least position of
+   the set S on that chain (and nothing for chains S does not meet) *)
+Definition rcovers (l : list (nat * nat)) (S : nat -> nat -> Prop) : Prop :=
+  sorted_keys l /\
+  forall c, match assoc c l with
+            | Some m => S c m /\ forall i, S c i -> m <= i
+            | None => forall i, ~ S c i
+            end.
+
+Lemma rcovers_ext : forall l S S', rcovers l S -> (forall c i, S c i <-> S' c i) -> rcovers l S'.
+Proof.
+  intros l S S' [Hs Hc] He. split; auto. intros c. specialize (Hc c).
+  destruct (assoc c l) as [m|].
+  - destruct Hc as [H1 H2]. split; [apply He; auto|]. intros i Hi. apply H2, He; auto.
+  - intros i Hi. apply (Hc i), He; auto.
+Qed.
+
+Lemma rcovers_ins1 : forall l S c m (T : nat -> Prop), rcovers l S ->
+  T m -> (forall i, T i -> m <= i) ->
+  rcovers (amin_insert c m l) (fun c' i => S c' i \/ (c' = c /\ T i)).
+Proof.
+  intros l S c m T [Hs Hc] Hm Hmin. split; [apply amin_sorted; auto|].
+  intros c0. rewrite amin_assoc by auto. destruct (Nat.eqb_spec c0 c) as [->|Hne].
+  - specialize (Hc c). destruct (assoc c l) as [m'|].
+    + destruct Hc as [H1 H2]. split.
+      * destruct (Nat.min_spec m' m) as [[_ ->]|[_ ->]]; auto.
+      * intros i [Hi|[_ Hi]]; [apply H2 in Hi|apply Hmin in Hi]; lia.
+    + split; auto. intros i [Hi|[_ Hi]]; [exfalso; eapply Hc; eauto|auto].
+  - specialize (Hc c0). destruct (assoc c0 l) as [m'|].
+    + destruct Hc as [H1 H2]. split; auto. intros i [Hi|[Hi _]]; [auto|congruence].
+    + intros i [Hi|[Hi _]]; [eapply Hc; eauto|congruence].
+Qed.
+
+Definition ins_all (acc es : list (nat * nat)) : list (nat * nat) :=
+  fold_left (fun a (e : nat * nat) => amin_insert (fst e) (snd e) a) es acc.
+
+Lemma rcovers_ins_list : forall (Sc : nat -> nat -> Prop) es acc S, rcovers acc S ->
+  (forall e, In e es -> Sc (fst e) (snd e) /\ forall i, Sc (fst e) i -> snd e <= i) ->
+  rcovers (ins_all acc es) (fun c i => S c i \/ (Sc c i /\ exists e, In e es /\ fst e = c)).
+Proof.
+  intros Sc. induction es as [|e es IH]; intros acc S Hc He; cbn [ins_all fold_left].
+  - eapply rcovers_ext; eauto. intros c i. split; auto. intros [H|[_ [e [[] _]]]]; auto.
+  - destruct (He e) as [E1 E2]; [cbn; auto|].
+    pose proof (rcovers_ins1 acc S (fst e) (snd e) (fun i => Sc (fst e) i) Hc E1 E2) as H1.
+    specialize (IH _ _ H1). fold (ins_all (amin_insert (fst e) (snd e) acc) es).
+    eapply rcovers_ext; [apply IH; intros e' He'; apply He; cbn; auto|].
+    intros c i. split.
+    + intros [[H|[-> H]]|[H [e' [He' E]]]]; auto.
+      * right. split; auto. exists e. cbn; auto.
+      * right. split; auto. exists e'. cbn; auto.
+    + intros [H|[H [e' [[<-|He'] E]]]]; auto.
+      * left. right. subst c. auto.
+      * right. split; auto. exists e'. auto.
+Qed.
+
+Lemma assoc_in_sorted : forall l c m, sorted_keys l -> In (c, m) l -> assoc c l = Some m.
+Proof.
+  induction l as [|[c' m'] l IH]; intros c m Hs Hin; [destruct Hin|]. cbn [assoc].
+  destruct Hin as [E|Hin].
+  - inversion E; subst. rewrite Nat.eqb_refl. reflexivity.
+  - pose proof (IH c m (sorted_tail _ _ Hs) Hin) as Ha.
+    destruct (Nat.eqb_spec c c') as [->|]; auto.
+    assert (c' < c') by (eapply sorted_head_lt; eauto; congruence). lia.
+Qed.
+
+Lemma assoc_some_in : forall l c m, assoc c l = Some m -> In (c, m) l.
+Proof.
+  induction l as [|[c' m'] l IH]; intros c m H; cbn in *; [discriminate|].
+  destruct (Nat.eqb_spec c c') as [->|]; [inversion H; auto|auto].
+Qed.
+
+(* merging the whole list of another node: the union of the two sets *)
+Lemma rcovers_merge : forall acc S lc Sc, rcovers acc S -> rcovers lc Sc ->
+  rcovers (ins_all acc lc) (fun c i => S c i \/ Sc c i).
+Proof.
+  intros acc S lc Sc Ha [Hs Hc].
+  eapply rcovers_ext; [apply (rcovers_ins_list Sc lc acc S Ha)|].
+  - intros [c m] He. pose proof (assoc_in_sorted lc c m Hs He) as E. specialize (Hc c). rewrite E in Hc. exact Hc.
+  - intros c i. split; [intros [H|[H _]]; auto|]. intros [H|H]; auto. right. split; auto.
+    specialize (Hc c). destruct (assoc c lc) as [m|] eqn:E; [|exfalso; eapply Hc; eauto].
+    exists (c, m). split; auto. apply assoc_some_in; auto.
+Qed.
+
+Lemma linked_nth : forall p ch i, linked p ch -> S i < length ch ->
+  In (nth (S i) ch 0) (children p (nth i ch 0)).
+Proof.
+  intros p. induction ch as [|a ch IH]; intros i Hl Hi; [cbn in Hi; lia|].
+  destruct ch as [|b ch]; [cbn in Hi; lia|]. destruct Hl as [H1 H2].
+  destruct i as [|i]; [exact H1|]. apply (IH i H2). cbn in *. lia.
+Qed.
+
+Lemma reach_last : forall p rk, wf_poset p rk -> forall z v, reach (parents p) z v ->
+  z = v \/ exists c, In c (children p v) /\ reach (parents p) z c.
+Proof.
+  intros p rk W z v H. induction H as [z|z q v Hin Hr IH]; auto. right.
+  destruct IH as [->|[c [Hc Hzc]]].
+  - exists z. split; [apply (wf_ch p rk W); auto|constructor].
+  - exists c. split; auto. eapply reach_step; eauto.
+Qed.
+
+Section ChainEnc.
+  Variables (p : poset) (rk : nat -> nat).
+  Hypothesis W : wf_poset p rk.
+  Hypothesis TO : topo_ok p.
+  Let n := pn p.
+  Let chains := decompose_chains p.
+  Let chain_of := chain_of_table n chains.
+  Let cpos (v : nat) : nat * nat := nth v chain_of (0, 0).
+
+  Let Part := chains_partition p rk W TO.
+
+  Lemma cpos_at : forall x cid pos, cid < length chains -> at_pos chains x cid pos -> cpos x = (cid, pos).
+  Proof.
+    intros x cid pos Hc Ha. destruct Part as [Hnd [Hall _]]. unfold cpos, chain_of. rewrite chain_of_table_eq.
+    destruct (couter_fold chains (repeat (0, 0) n) 0 Hnd) as [_ C2].
+    - intros v Hv. rewrite repeat_length. apply Hall. auto.
+    - rewrite (C2 x cid pos Ha Hc). reflexivity.
+  Qed.
+
+  Lemma at_exists : forall v, v < n -> exists cid pos, cid < length chains /\ at_pos chains v cid pos.
+  Proof.
+    intros v Hv. destruct Part as [_ [Hall _]]. apply Hall in Hv. apply in_concat in Hv as [ch [Hch Hv]].
+    destruct (In_nth _ _ [] Hch) as [cid [Hc Ec]]. destruct (In_nth _ _ 0 Hv) as [pos [Hp Ep]].
+    exists cid, pos. split; auto. unfold at_pos, chains. rewrite Ec. auto.
+  Qed.
+
+  Lemma cpos_inv : forall v c i, v < n -> cpos v = (c, i) -> c < length chains /\ at_pos chains v c i.
+  Proof.
+    intros v c i Hv E. destruct (at_exists v Hv) as [cid [pos [Hc Ha]]].
+    rewrite (cpos_at v cid pos Hc Ha) in E. inversion E; subst. auto.
+  Qed.
+
+  Lemma chain_down : forall x y c i j, c < length chains -> at_pos chains x c i -> at_pos chains y c j -> i <= j ->
+    reach (parents p) y x.
+  Proof.
+    intros x y c i j Hc [Hi Ex] [Hj Ey] Hij. destruct Part as [_ [_ Hlk]].
+    destruct (Hlk (nth c chains [])) as [Hl _]; [apply nth_In; auto|].
+    subst x y. remember (j - i) as d eqn:Ed. revert j Hj Hij Ed. induction d as [|d IH]; intros j Hj Hij Ed.
+    - replace j with i by lia. constructor.
+    - destruct j as [|j]; [lia|]. eapply reach_step; [|apply (IH j); lia].
+      apply (wf_ch p rk W). apply linked_nth; auto.
+  Qed.
+
+  Lemma chain_elem_lt : forall x c i, c < length chains -> at_pos chains x c i -> x < n.
+  Proof.
+    intros x c i Hc [Hi Ex]. destruct Part as [_ [Hall _]]. apply Hall. apply in_concat.
+    exists (nth c chains []). split; [apply nth_In; auto|]. subst x. apply nth_In. auto.
+  Qed.
+
+  (* the positions of v's descendants on each chain *)
+  Definition Sd (v c i : nat) : Prop := exists z, z < n /\ reach (parents p) z v /\ cpos z = (c, i).
+
+  Definition rstep (rm : list (list (nat * nat))) (v : nat) : list (list (nat * nat)) :=
+    let '(cid, pos) := nth v chain_of (0, 0) in
+    upd rm v (fold_left (fun acc c => ins_all acc (nth c rm [])) (children p v) [(cid, pos)]).
+
+  Lemma children_fold : forall rm chs acc S, rcovers acc S ->
+    (forall c, In c chs -> rcovers (nth c rm []) (Sd c)) ->
+    rcovers (fold_left (fun acc c => ins_all acc (nth c rm [])) chs acc)
+           (fun c i => S c i \/ exists ch, In ch chs /\ Sd ch c i).
+  Proof.
+    intros rm. induction chs as [|ch chs IH]; intros acc S Ha Hc; cbn [fold_left].
+    - eapply rcovers_ext; eauto. intros c i. split; auto. intros [H|[ch [[] _]]]; auto.
+    - eapply rcovers_ext.
+      + apply IH; [apply rcovers_merge; [exact Ha|apply Hc; cbn; auto]|intros c Hin; apply Hc; cbn; auto].
+      + intros c i. split.
+        * intros [[H|H]|[ch' [Hin H]]]; auto; right; [exists ch|exists ch']; cbn; auto.
+        * intros [H|[ch' [[<-|Hin] H]]]; auto. right. exists ch'. auto.
+  Qed.
+
+  Lemma Sd_decomp : forall v c i, v < n ->
+    (Sd v c i <-> ((c, i) = cpos v \/ exists ch, In ch (children p v) /\ Sd ch c i)).
+  Proof.
+    intros v c i Hv. split.
+    - intros [z [Hz [Hr E]]]. destruct (reach_last p rk W z v Hr) as [->|[ch [Hch Hzc]]]; auto.
+      right. exists ch. split; auto. exists z. auto.
+    - intros [E|[ch [Hch [z [Hz [Hr E]]]]]].
+      + exists v. split; auto. split; [constructor|auto].
+      + exists z. split; auto. split; auto. eapply reach_trans; eauto.
+        eapply reach_step; [apply (wf_ch p rk W); eauto|constructor].
+  Qed.
+
+  Lemma rfold_inv : forall l done rm, ptopo p = done ++ l -> length rm = n ->
+    (forall u, In u done -> rcovers (nth u rm []) (Sd u)) ->
+    length (fold_left rstep l rm) = n /\
+    forall u, In u (done ++ l) -> rcovers (nth u (fold_left rstep l rm) []) (Sd u).
+  Proof.
+    induction l as [|v l IH]; intros done rm E Hl Hd; cbn [fold_left].
+    - rewrite app_nil_r. auto.
+    - pose proof TO as [Tnd [Tall Tidx]].
+      assert (Hv : v < n) by (apply Tall; rewrite E; apply in_or_app; right; cbn; auto).
+      assert (Hvd : ~ In v done).
+      { rewrite E in Tnd. apply NoDup_remove_2 in Tnd. intros H. apply Tnd. apply in_or_app; auto. }
+      assert (Hch : forall c, In c (children p v) -> In c done).
+      { intros c Hc. apply (wf_ch p rk W) in Hc. pose proof (Tidx c v Hc) as Hi.
+        rewrite E in Hi. rewrite (idx_app_head v done l Hvd) in Hi.
+        destruct (in_dec Nat.eq_dec c done) as [|Hn]; auto. exfalso.
+        assert (G : forall d, ~ In c d -> length d <= index_of c (d ++ v :: l)).
+        { induction d as [|a d IHd]; intros Hnd'; cbn; [lia|].
+          destruct (Nat.eqb_spec c a) as [->|]; [exfalso; apply Hnd'; cbn; auto|].
+          assert (Hd' : ~ In c d) by (intros H; apply Hnd'; cbn; auto). specialize (IHd Hd'). lia. }
+        specialize (G done Hn). lia. }
+      assert (Hstep : length (rstep rm v) = n /\ forall u, In u (done ++ [v]) -> rcovers (nth u (rstep rm v) []) (Sd u)).
+      { unfold rstep. destruct (nth v chain_of (0, 0)) as [cid pos] eqn:Ecp. rewrite upd_length. split; auto.
+        intros u Hu. apply in_app_or in Hu as [Hu|[<-|[]]].
+        - rewrite nth_upd_other by (intros ->; auto). auto.
+        - rewrite nth_upd by lia. rewrite Nat.eqb_refl.
+          eapply rcovers_ext.
+          + apply (children_fold rm (children p v) [(cid, pos)] (fun c i => (c, i) = (cid, pos))).
+            * split; [cbn; auto|]. intros c. cbn [assoc]. destruct (Nat.eqb_spec c cid) as [->|Hne].
+              -- split; auto. intros i Hi. inversion Hi. lia.
+              -- intros i Hi. inversion Hi. congruence.
+            * intros c Hc. apply Hd. auto.
+          + intros c i. rewrite (Sd_decomp v c i Hv). unfold cpos. rewrite Ecp. tauto. }
+      destruct Hstep as [S1 S2].
+      destruct (IH (done ++ [v]) (rstep rm v)) as [I1 I2]; auto.
+      { rewrite <- app_assoc. exact E. }
+      split; auto. intros u Hu. apply I2. rewrite <- app_assoc. exact Hu.
+  Qed.
+
+  Lemma reach_maps_ok : forall v, v < n ->
+    match build_chain p with
+    | EChain co chs reach => co = chain_of /\ chs = chains /\ rcovers (nth v reach []) (Sd v)
+    | _ => False
+    end.
+  Proof.
+    intros v Hv. unfold build_chain. fold chains. fold n. fold chain_of.
+    change (fold_left _ (ptopo p) (repeat [] n)) with (fold_left rstep (ptopo p) (repeat [] n)).
+    split; auto. split; auto.
+    destruct (rfold_inv (ptopo p) [] (repeat [] n)) as [_ I2]; auto.
+    - apply repeat_length.
+    - intros u [].
+    - apply I2. cbn [app]. pose proof TO as [_ [Tall _]]. apply Tall. auto.
+  Qed.
+End ChainEnc.
+
+Lemma NoDup_skipn : forall A k (l : list A), NoDup l -> NoDup (skipn k l).
+Proof.
+  induction k as [|k IH]; intros l H; cbn; auto. destruct l; auto. inversion H; auto.
+Qed.
+
+Lemma in_skipn_nth : forall (l : list nat) k x, In x (skipn k l) <-> exists j, k <= j < length l /\ nth j l 0 = x.
+Proof.
+  induction l as [|a l IH]; intros k x.
+  - rewrite skipn_nil. split; [intros []|intros [j [Hj _]]; cbn in Hj; lia].
+  - destruct k as [|k]; cbn [skipn].
+    + split.
+      * intros H. destruct (In_nth _ _ 0 H) as [j [Hj E]]. exists j. split; auto. lia.
+      * intros [j [Hj E]]. rewrite <- E. apply nth_In. lia.
+    + rewrite IH. split; intros [j [Hj E]].
+      * exists (S j). cbn. split; auto. lia.
+      * destruct j as [|j]; [lia|]. exists j. cbn in *. split; auto. lia.
+Qed.
+
+Lemma sorted_NoDup : forall l, sorted_keys l -> NoDup l.
+Proof.
+  induction l as [|[c m] l IH]; intros Hs; constructor.
+  - intros Hin. pose proof (assoc_in_sorted l c m (sorted_tail _ _ Hs) Hin) as E.
+    assert (c < c) by (eapply sorted_head_lt; eauto; congruence). lia.
+  - apply IH. eapply sorted_tail; eauto.
+Qed.
+
+Lemma NoDup_concat_in : forall (ls : list (list nat)) l, NoDup (concat ls) -> In l ls -> NoDup l.
+Proof.
+  induction ls as [|a ls IH]; intros l Hnd Hin; [destruct Hin|]. cbn in Hnd.
+  destruct (NoDup_app_elim _ _ _ Hnd) as [N1 [N2 _]]. destruct Hin as [<-|H]; auto.
+Qed.
+
+Section ChainIndex.
+  Variables (p : poset) (rk : nat -> nat).
+  Hypothesis W : wf_poset p rk.
+  Hypothesis TO : topo_ok p.
+  Let n := pn p.
+  Let chains := decompose_chains p.
+
+  Theorem chain_subsumes : forall m r x y, x < n -> y < n ->
+    subsumes (mk_index p (build_chain p) m r) x y = spec_subsumes p x y.
+  Proof.
+    intros m r x y Hx Hy. apply eq_true_iff_eq. rewrite (spec_subsumes_reach p rk W).
+    pose proof (reach_maps_ok p rk W TO y Hy) as R.
+    unfold subsumes, mk_index. cbn [ix_enc].
+    destruct (build_chain p) as [| |co chs rmap]; try contradiction. destruct R as [-> [-> [Hs Hc]]].
+    destruct (nth x (chain_of_table (pn p) (decompose_chains p)) (0, 0)) as [cx px] eqn:Ex.
+    destruct (cpos_inv p rk W TO x cx px Hx Ex) as [Hcx Hax].
+    specialize (Hc cx). destruct (assoc cx (nth y rmap [])) as [mm|].
+    - destruct Hc as [[z [Hz [Hzy Ez]]] Hmin]. split.
+      + intros Hle. apply Nat.leb_le in Hle.
+        destruct (cpos_inv p rk W TO z cx mm Hz Ez) as [_ Haz].
+        eapply reach_trans; [|exact Hzy]. eapply (chain_down p rk W TO); eauto.
+      + intros Hr. apply Nat.leb_le. apply Hmin. exists x. auto.
+    - split; [discriminate|]. intros Hr. exfalso. apply (Hc px). exists x. auto.
+  Qed.
+
+  Theorem chain_descendants : forall m r y, y < n ->
+    let d := descendants (mk_index p (build_chain p) m r) y in
+    NoDup d /\ (forall x, In x d <-> In x (spec_desc p y)) /\
+    descendant_count (mk_index p (build_chain p) m r) y = length d /\
+    length d = length (spec_desc p y).
+  Proof.
+    intros m r y Hy.
+    pose proof (reach_maps_ok p rk W TO y Hy) as R.
+    pose proof (chains_partition p rk W TO) as [Pnd [Pall Plk]].
+    unfold descendants, descendant_count, mk_index. cbn [ix_enc].
+    destruct (build_chain p) as [| |co chs rmap]; try contradiction. destruct R as [-> [-> [Hs Hc]]].
+    fold chains in Pnd, Pall, Plk |- *. cbv zeta.
+    set (L := nth y rmap []) in *.
+    set (f := fun e : nat * nat => skipn (snd e) (nth (fst e) chains [])).
+    assert (Hkey : forall c mm, In (c, mm) L -> c < length chains /\ mm < length (nth c chains [])).
+    { intros c mm Hin. pose proof (assoc_in_sorted L c mm Hs Hin) as E. specialize (Hc c). rewrite E in Hc.
+      destruct Hc as [[z [Hz [_ Ez]]] _]. destruct (cpos_inv p rk W TO z c mm Hz Ez) as [H1 [H2 _]]. auto. }
+    assert (Hmem : forall x, In x (flat_map f L) <-> (x < n /\ reach (parents p) x y)).
+    { intros x. rewrite in_flat_map. split.
+      - intros [[c mm] [Hin Hx]]. unfold f in Hx. cbn [fst snd] in Hx.
+        destruct (Hkey c mm Hin) as [Hcl Hml].
+        apply in_skipn_nth in Hx as [j [Hj Ej]].
+        pose proof (assoc_in_sorted L c mm Hs Hin) as E. specialize (Hc c). rewrite E in Hc.
+        destruct Hc as [[z [Hz [Hzy Ez]]] _]. destruct (cpos_inv p rk W TO z c mm Hz Ez) as [_ Haz].
+        assert (Hax : at_pos chains x c j) by (split; auto; lia).
+        split; [eapply (chain_elem_lt p rk W TO); eauto|].
+        eapply reach_trans; [|exact Hzy]. eapply (chain_down p rk W TO); eauto. lia.
+      - intros [Hx Hr]. destruct (at_exists p rk W TO x Hx) as [c [i [Hcl Hax]]].
+        pose proof (cpos_at p rk W TO x c i Hcl Hax) as Ex.
+        specialize (Hc c). destruct (assoc c L) as [mm|] eqn:E.
+        + destruct Hc as [_ Hmin]. exists (c, mm). split; [apply assoc_some_in; auto|].
+          unfold f. cbn [fst snd]. apply in_skipn_nth. exists i. destruct Hax as [Hi Ei]. split; auto.
+          split; auto. apply Hmin. exists x. auto.
+        + exfalso. apply (Hc i). exists x. auto. }
+    assert (Hnd : NoDup (flat_map f L)).
+    { apply NoDup_flat_map.
+      - apply sorted_NoDup; auto.
+      - intros [c mm] Hin. unfold f. apply NoDup_skipn. cbn [fst].
+        destruct (Hkey c mm Hin) as [Hcl _].
+        apply (NoDup_concat_in chains); auto. apply nth_In; auto.
+      - intros [c1 m1] [c2 m2] x H1 H2 Hne Hx1 Hx2. unfold f in Hx1, Hx2. cbn [fst snd] in *.
+        destruct (Hkey c1 m1 H1) as [Hc1 _]. destruct (Hkey c2 m2 H2) as [Hc2 _].
+        apply in_skipn_nth in Hx1 as [j1 [Hj1 E1]]. apply in_skipn_nth in Hx2 as [j2 [Hj2 E2]].
+        assert (A1 : at_pos chains x c1 j1) by (split; auto; lia).
+        assert (A2 : at_pos chains x c2 j2) by (split; auto; lia).
+        pose proof (cpos_at p rk W TO x c1 j1 Hc1 A1) as P1.
+        pose proof (cpos_at p rk W TO x c2 j2 Hc2 A2) as P2.
+        assert (E12 : (c1, j1) = (c2, j2)) by (etransitivity; [symmetry; exact P1|exact P2]). inversion E12; subst c2.
+        pose proof (assoc_in_sorted L c1 m1 Hs H1) as Q1. pose proof (assoc_in_sorted L c1 m2 Hs H2) as Q2.
+        rewrite Q1 in Q2. inversion Q2; subst. apply Hne. reflexivity. }
+    assert (M : forall x, In x (flat_map f L) <-> In x (spec_desc p y)).
+    { intros x. rewrite Hmem, (spec_desc_spec p rk W). reflexivity. }
+    split; auto. split; auto. split.
+    - (* the structural count is the length of the enumeration *)
+      clear -Hkey. unfold f.
+      assert (G : forall l a, (forall c mm, In (c, mm) l -> mm < length (nth c chains [])) ->
+                fold_left (fun a (e : nat * nat) => a + (length (nth (fst e) chains []) - snd e)) l a
+                = a + length (flat_map (fun e : nat * nat => skipn (snd e) (nth (fst e) chains [])) l)).
+      { induction l as [|[c mm] l IHl]; intros a Hk; cbn [fold_left flat_map]; [cbn; lia|].
+        rewrite IHl by (intros c' m' H; apply Hk; cbn; auto). rewrite app_length, skipn_length. cbn [fst snd]. lia. }
+      rewrite G; [lia|]. intros c mm H. apply (Hkey c mm H).
+    - apply Nat.le_antisymm; apply NoDup_incl_length; auto.
+      + intros x Hx. apply M; auto.
+      + unfold spec_desc. apply NoDup_filter, seq_NoDup.
+      + intros x Hx. apply M; auto.
+  Qed.
+End ChainIndex.
